@@ -94,9 +94,20 @@ FORBIDDEN = r'Admitted|admit|Axiom|Parameter|Conjecture|Unset Guard|bypass_check
 
 
 def coq_audit():
-    rc, out = sh(['grep', '-rnE', '--include=*.v', '--include=_CoqProject', FORBIDDEN, os.path.join(COQ, 'theories'), os.path.join(COQ, '_CoqProject')])
-    # top-level Variable / Hypothesis outside sections are not used either
-    rc2, out2 = sh(['grep', '-rnE', '--include=*.v', r'^\s*(Variable|Variables|Hypothesis|Hypotheses)\b', os.path.join(COQ, 'theories')])
+    """forbidden constructs in any file of the development (= the files listed in _CoqProject)"""
+    files = [os.path.join(COQ, l.strip()) for l in open(os.path.join(COQ, '_CoqProject'))
+             if l.strip().endswith('.v')]
+    listed = set(os.path.realpath(f) for f in files)
+    # a .v file under theories/ that is imported but not listed would escape: every file under
+    # theories/ that has a compiled .vo next to it must be listed
+    for root, _, names in os.walk(os.path.join(COQ, 'theories')):
+        for n in names:
+            if n.endswith('.vo') and os.path.realpath(os.path.join(root, n[:-1])) not in listed:
+                files.append(os.path.join(root, n[:-1]))
+    files.append(os.path.join(COQ, '_CoqProject'))
+    files = [f for f in files if os.path.exists(f)]
+    rc, out = sh(['grep', '-nE', FORBIDDEN] + files)
+    rc2, out2 = sh(['grep', '-nE', r'^\s*(Variable|Variables|Hypothesis|Hypotheses)\b'] + files)
     return (out.strip() == '' and out2.strip() == ''), (out + out2)
 
 
